@@ -181,8 +181,8 @@ namespace stdex
         constexpr void reserve(size_type) const {};
         constexpr const T& operator[](size_type idx) const { return the_data[idx]; }
         constexpr T& operator[](size_type idx) { return the_data[idx]; }
-        constexpr void push_back(const T& v) { the_data[current_size++] = v; }
-        constexpr void emplace_back(T&& v) { the_data[current_size++] = std::move(v); }
+        constexpr void push_back(const T& v) { check_capacity(); the_data[current_size++] = v; }
+        constexpr void emplace_back(T&& v) { check_capacity(); the_data[current_size++] = std::move(v); }
         constexpr const T& front() const { return the_data[0]; }
         constexpr T& front() { return the_data[0]; }
         constexpr T& back() { return the_data[current_size - 1]; }
@@ -212,6 +212,12 @@ namespace stdex
         }
 
     private:
+        constexpr void check_capacity() const
+        {
+            if (current_size >= N)
+                throw std::runtime_error("cvector capacity exceeded");
+        }
+
         T the_data[N];
 #ifdef CTPG_VERIF
         size_type ctpg_verif_canary = ::ctpg_verif::canary_value;
